@@ -9,7 +9,16 @@ import (
 
 func ValidatorSeed(valAddr sdk.ValAddress) uint64 {
 	m := native_mimc.NewMiMC()
-	m.Write(valAddr)
+	// MiMC absorbs whole 32-byte blocks (Write left-pads a single short block itself but
+	// reads past the end of a longer input that is not a whole number of blocks): left-pad
+	// such an address so that the seed depends on the address bytes only, for every length.
+	bz := []byte(valAddr)
+	if rem := len(bz) % m.BlockSize(); len(bz) > m.BlockSize() && rem != 0 {
+		padded := make([]byte, len(bz)+m.BlockSize()-rem)
+		copy(padded[m.BlockSize()-rem:], bz)
+		bz = padded
+	}
+	m.Write(bz)
 	hash := m.Sum(nil)
 	seed := sdk.BigEndianToUint64(hash)
 	return seed
